@@ -2,7 +2,7 @@
 from .c11seq import Model, PRIMS, HALF, recipe
 from .common import muted
 
-KINDS = ['drv_dynamic_first', 'drv_dynamic_second', 'drv_dynamic_class_late', 'dup_iface_removed_shared', 'dup_iface_removed_used', 'disc_prim_then_drive', 'disc_struct_then_drive', 'disc_unrelated', 'drv_prim_prim', 'drv_same_leaf_twice', 'drv_same_block_twice', 'drv_wrap_then_outside', 'drv_outside_then_wrap',
+KINDS = ['readd_same_name', 'readd_new_name', 'readd_after_reader_detached', 'drv_dynamic_first', 'drv_dynamic_second', 'drv_dynamic_class_late', 'dup_iface_removed_shared', 'dup_iface_removed_used', 'disc_prim_then_drive', 'disc_struct_then_drive', 'disc_unrelated', 'drv_prim_prim', 'drv_same_leaf_twice', 'drv_same_block_twice', 'drv_wrap_then_outside', 'drv_outside_then_wrap',
          'drv_leaf_then_block', 'drv_block_then_leaf', 'drv_two_ports_one_leaf', 'drv_inout', 'drv_interface',
          'dup_child', 'dup_wire', 'dup_wires', 'dup_rename', 'dup_reparent', 'dup_reparent_rename',
          'dup_iface_plain_first', 'dup_iface_twice', 'dup_iface_cross', 'dup_iface_then_plain']
@@ -328,13 +328,40 @@ class Gen:
             op['inner'] = True
         return op
 
+    def addport_op(self, cid, d, wid, same, via=None):
+        op = dict(op='addport', cid=cid, dir=d, wid=wid, same=bool(same), name=self.fresh('p'), which=self.rnd.randrange(0, 3))
+        if via:
+            op['via'] = via
+        return op
+
+    def is_plain_leaf(self, cid):
+        """a live primitive created by a 'leaf' step (its own object carries the ports)"""
+        return cid in self.m.children and self.m.children[cid]['prim'] and any(o.get('cid') == cid and o['op'] == 'leaf' for o in self.ops)
+
+    def bg_readd(self, cid, wid, was):
+        """accept-only re-adding of ports on a block one of whose ports was just detached from wid: out ports only onto free
+        wires (the released one or another), in ports onto free / driven / read wires; same or new port names"""
+        w = self.m.wires[wid]['width']
+        for _ in range(self.rnd.randrange(1, 3)):
+            q = self.rnd.random()
+            same = self.rnd.random() < 0.6 and was == ('out' if q < 0.5 else 'in')
+            if q < 0.5:
+                tgt = wid if (was == 'out' and self.m.wires[wid]['driver'] is None and self.rnd.random() < 0.5) else self.free_wire(w, 0.5)
+                if self.m.wires[tgt]['driver'] is None:
+                    self.emit(self.addport_op(cid, 'out', tgt, same))
+            else:
+                self.emit(self.addport_op(cid, 'in', self.any_wire(w), same, via='reconnectIn' if self.rnd.random() < 0.3 else None))
+
     def bg_disconnect(self):
         q = self.rnd.random()
         pd = self.prim_drivers()
         if q < 0.5 and pd:
             wid, cid = self.rnd.choice(pd)
             self.emit(self.disc_op(wid, cid))            # release the wire ...
-            if self.rnd.random() < 0.7:                  # ... and give it a new driver
+            r = self.rnd.random()
+            if r < 0.3 and self.is_plain_leaf(cid):
+                self.bg_readd(cid, wid, 'out')           # ... and re-add ports on the released block
+            elif r < 0.8:                                # ... and give it a new driver
                 self.emit(self.leaf_op(width=self.m.wires[wid]['width'], outs=[wid]))
         else:
             readers = [(w, cid) for cid, c in self.m.children.items() if c['prim'] for w in c['ins']
@@ -342,6 +369,8 @@ class Gen:
             if readers:
                 wid, cid = self.rnd.choice(readers)
                 self.emit(self.disc_op(wid, cid))
+                if self.rnd.random() < 0.4 and self.is_plain_leaf(cid):
+                    self.bg_readd(cid, wid, 'in')
             else:
                 self.new_wire()
 
@@ -353,6 +382,70 @@ class Gen:
         op = self.leaf_op(width=width)
         self.emit(op)
         return op['outs'][0]
+
+    def _readd(self, f, same, detach):
+        """block B loses a port by disconnectWireFromLogicObject (detach='out': the out port that drove xb; 'in': a reading
+        port), other things may happen, then B gets an out port again -- with the name of the detached port or a new name -- on a
+        wire that another block (primitive, wrapper, or B's own other port) already drives: refused, the earlier driver stays.
+        twin: the same history, the new out port goes onto a free wire (the released one or a fresh one)"""
+        cls = self.rnd.choice(['Buf', 'Not', 'And2', 'Reg', 'HLeaf', 'HLeaf', 'Dyn', 'Mux2', 'Constant'])
+        if detach == 'in' and cls == 'Constant':
+            cls = 'Buf'
+        b = self.leaf_op(cls=cls)
+        if detach == 'in' and not b['ins']:
+            b = self.leaf_op(cls='HLeaf', ins=[self.any_wire(1)], width=1)
+        self.emit(b)
+        w = self.m.wires[b['outs'][0]]['width']
+        xb = b['outs'][0] if detach == 'out' else self.rnd.choice(b['ins'])
+        # the wire the re-added port aims at
+        how = self.rnd.choice(['leaf', 'leaf', 'wrap', 'existing', 'own_other_out'])
+        if not f:
+            xa = None
+        elif how == 'wrap':
+            a = self.wrap_op(depth=self.rnd.randrange(1, 3), width=w)
+            self.emit(a)
+            xa = a['outs'][0]
+        elif how == 'existing':
+            xa = self.driven_by_leaf(w)
+        elif how == 'own_other_out' and detach == 'in':
+            xa = b['outs'][0]
+        else:
+            a = self.leaf_op(width=w)
+            self.emit(a)
+            xa = a['outs'][0]
+        if self.rnd.random() < 0.3:
+            self.background()
+        if not self.is_plain_leaf(b['cid']) or (detach == 'out' and self.m.wires[xb]['driver'] != (b['cid'], 0)) or \
+                (detach == 'in' and xb not in self.m.children[b['cid']]['ins']):
+            self.exp.append(None)       # the background disturbed the set-up: discard the plan
+            return 1
+        self.emit(self.disc_op(xb, b['cid']))
+        q = self.rnd.random()
+        if q < 0.25:
+            self.background()
+        elif q < 0.45:                  # an accepted re-add first (in port, any wire)
+            self.emit(self.addport_op(b['cid'], 'in', self.any_wire(w), (same or self.rnd.random() < 0.5) and detach == 'in'))
+        if f:
+            if xa == xb or self.m.wires[xa]['driver'] in (None, HALF):
+                self.exp.append(None)
+                return 1
+            self.emit(self.addport_op(b['cid'], 'out', xa, same and detach == 'out'))
+            if detach == 'out' and self.rnd.random() < 0.5:         # and once more, the other way of naming
+                self.emit(self.addport_op(b['cid'], 'out', xa, not same))
+                return 2
+            return 1
+        tgt = xb if (detach == 'out' and self.m.wires[xb]['driver'] is None and self.rnd.random() < 0.5) else self.free_wire(w, 1.0)
+        self.emit(self.addport_op(b['cid'], 'out', tgt, same and detach == 'out'))
+        return 0
+
+    def g_readd_same_name(self, f):
+        return self._readd(f, True, 'out')
+
+    def g_readd_new_name(self, f):
+        return self._readd(f, False, 'out')
+
+    def g_readd_after_reader_detached(self, f):
+        return self._readd(f, self.rnd.random() < 0.5, 'in')
 
     def g_disc_prim_then_drive(self, f):
         """driver released by disconnect, second driver accepted; a third one (f) must be refused"""
